@@ -74,10 +74,11 @@ type caseCfg struct {
 	quotas []quotaDef
 }
 
+// flow returns the LAST declared flow of that name (op lines `proc`/`conn` refer to it).
 func (c *caseCfg) flow(name string) *flowDef {
-	for _, f := range c.flows {
-		if f.name == name {
-			return f
+	for i := len(c.flows) - 1; i >= 0; i-- {
+		if c.flows[i].name == name {
+			return c.flows[i]
 		}
 	}
 	return nil
@@ -313,7 +314,7 @@ func buildEngine(c *caseCfg, fileOrder []string) *engine {
 		pos[n] = i
 	}
 	k := len(fileOrder)
-	for _, f := range c.flows {
+	for idx, f := range c.flows {
 		if f.kind != "user" {
 			continue
 		}
@@ -322,7 +323,7 @@ func buildEngine(c *caseCfg, fileOrder []string) *engine {
 			p = k
 			k++
 		}
-		writeFile(filepath.Join(dir, "flows", fmt.Sprintf("%02d_%s.yaml", p, f.name)), flowYAML(f))
+		writeFile(filepath.Join(dir, "flows", fmt.Sprintf("%02d_%s_%d.yaml", p, f.name, idx)), flowYAML(f))
 	}
 	if len(c.quotas) > 0 {
 		writeFile(filepath.Join(dir, "quotas", "quotas.yaml"), quotasYAML(c.quotas))
